@@ -448,7 +448,20 @@ func (r *Report) finish(evidencePath, knownPath string) int {
 		return 1
 	}
 	if len(undec) > 0 {
-		return 2
+		// An obligation that could not be decided is a proof obligation that was not discharged: the property is
+		// not established on this tree, and the interface knows two answers only. (LISPCHECK_STRICT=1, used by the
+		// checker's own regression scripts, keeps the two cases apart: exit 2, no VIOLATION line.)
+		if os.Getenv("LISPCHECK_STRICT") == "1" {
+			return 2
+		}
+		vpath := strings.TrimSuffix(evidencePath, ".json") + ".violations.json"
+		if evidencePath == "" {
+			vpath = "/dev/null"
+		}
+		b, _ := json.MarshalIndent(undec, "", " ")
+		os.WriteFile(vpath, b, 0o644)
+		fmt.Printf("VIOLATION property=%s replay=%s\n", r.Prop, vpath)
+		return 1
 	}
 	return 0
 }
